@@ -72,3 +72,20 @@ Theorem C18_finished_run_records_each_step_once :
   RunInv n s -> is_finished s = true ->
   flat_map fill_of (rev (m_ev s)) = (0, 0%R) :: fills_upto s (Z.to_nat (m_steps s)) /\ jumps_ok s.
 Proof. exact finished_run_fills. Qed.
+
+(* The loop MPSBackend._run executes (`while not impl.is_finished(): impl.progress()`, [run] with a fuel bound):
+   for every oracle stream, WHENEVER the loop returns, the returned state is finished, satisfies the run
+   invariant, every time step was recorded exactly once, in order, at its end time, and every jump happened
+   inside some time step.  (That it returns for every stream is not provable: see C19.) *)
+From EV Require Import Proofs.MpsRunLoop Proofs.MpsRunLoopCor.
+Theorem C18_run_loop_result :
+  forall (n : nat) (t1 : R) (rest : list R) etol maxsw onorm ounif oenergy osame (fuel : nat),
+  (forall k, 0 <= k < 1 + Z.of_nat (length rest) ->
+             (tmL (0%R :: t1 :: rest) k < tmL (0%R :: t1 :: rest) (k + 1))%R) ->
+  forall s0 sf,
+    mk_initial R_arith Noisy (Z.of_nat n + 3) (1 + Z.of_nat (length rest)) (0%R :: t1 :: rest) etol maxsw
+               onorm ounif oenergy osame = Ok s0 ->
+    run R_arith fuel s0 = Ok sf ->
+    is_finished sf = true /\ RunInv n sf /\
+    flat_map fill_of (rev (m_ev sf)) = (0, 0%R) :: fills_upto sf (Z.to_nat (m_steps sf)) /\ jumps_ok sf.
+Proof. exact noisy_run_loop. Qed.
